@@ -134,6 +134,20 @@ pub fn drive_opts<F>(
 where
     F: Fn(&[u8]) -> CaseResult + Sync,
 {
+    // a panicking case is a failing case, wherever the case function is called
+    let f = move |bytes: &[u8]| -> CaseResult {
+        match std::panic::catch_unwind(std::panic::AssertUnwindSafe(|| f(bytes))) {
+            Ok(r) => r,
+            Err(_) => CaseResult {
+                violation: Some(format!(
+                    "panic: {}",
+                    crate::util::take_panics().join(" | ")
+                )),
+                ..CaseResult::default()
+            },
+        }
+    };
+    crate::util::install_panic_hook();
     let n = SHARDS_OVERRIDE.with(std::cell::Cell::get).unwrap_or_else(shards) as u64;
     let total_cases = std::env::var("VERIF_CASES")
         .ok()
